@@ -351,35 +351,52 @@ Proof. vm_compute. reflexivity. Qed.
 
 (* ================================================================== 3. the run task *)
 
-Lemma rstep_done : forall s e, r_done s = true -> rstep s e = (s, None).
-Proof. intros s e H. unfold rstep. rewrite H. reflexivity. Qed.
+Section AnyRecv.
+Variable rcv : list status -> bool -> option status -> option status.
 
-Lemma rrun_done : forall evs s, r_done s = true -> rrun s evs = [].
+Lemma rstep_done : forall s e, r_done s = true -> rstep_gen rcv s e = (s, None).
+Proof. intros s e H. unfold rstep_gen. rewrite H. reflexivity. Qed.
+
+Lemma rrun_done : forall evs s, r_done s = true -> rrun_gen rcv s evs = [].
 Proof.
   induction evs as [|[t e] r IH]; intros s H; simpl; [reflexivity|].
   rewrite (rstep_done _ _ H). apply IH. assumption.
 Qed.
 
-Lemma rstep_some_done : forall s e s' st, rstep s e = (s', Some st) -> r_done s' = true.
+Lemma rstep_some_done : forall s e s' st, rstep_gen rcv s e = (s', Some st) -> r_done s' = true.
 Proof.
-  intros s e s' st H. unfold rstep in H. destruct (r_done s); [discriminate|].
-  destruct e; try discriminate; destruct (recv (r_queue s) (r_closed s)); inversion H; reflexivity.
+  intros s e s' st H. unfold rstep_gen in H. destruct (r_done s); [discriminate|].
+  destruct e; try discriminate; destruct (rcv (r_queue s) (r_closed s) (r_first s)); inversion H; reflexivity.
 Qed.
 
-Lemma rstep_none_notdone : forall s e s', r_done s = false -> rstep s e = (s', None) -> r_done s' = false.
+Lemma rstep_none_notdone : forall s e s', r_done s = false -> rstep_gen rcv s e = (s', None) -> r_done s' = false.
 Proof.
-  intros s e s' Hd H. unfold rstep in H. rewrite Hd in H.
+  intros s e s' Hd H. unfold rstep_gen in H. rewrite Hd in H.
   destruct e; try (inversion H; reflexivity);
-    destruct (recv (r_queue s) (r_closed s)); inversion H; subst; assumption.
+    destruct (rcv (r_queue s) (r_closed s) (r_first s)); inversion H; subst; assumption.
 Qed.
 
 (* a run returns at most once *)
-Theorem run_returns_at_most_once : forall evs s, length (rrun s evs) <= 1.
+Lemma once_gen : forall evs s, length (rrun_gen rcv s evs) <= 1.
 Proof.
   induction evs as [|[t e] r IH]; intro s; simpl; [lia|].
-  destruct (rstep s e) as [s' [st|]] eqn:E.
+  destruct (rstep_gen rcv s e) as [s' [st|]] eqn:E.
   - rewrite (rrun_done r s' (rstep_some_done _ _ _ _ E)). simpl. lia.
   - apply IH.
+Qed.
+
+(* whatever happens before it, the outer deadline makes the run return, no later than d + 1 s *)
+Lemma deadline_from : forall D evs s,
+  r_done s = false -> Forall (fun x => (fst x <= D)%N) evs ->
+  exists t st, rrun_gen rcv s (evs ++ [(D, RDeadline)]) = [(t, st)] /\ (t <= D)%N.
+Proof.
+  induction evs as [|[t0 e0] r IH]; intros s Hd Hall; simpl.
+  - unfold rstep_gen. rewrite Hd. destruct (rcv (r_queue s) (r_closed s) (r_first s));
+      eexists; eexists; (split; [reflexivity | lia]).
+  - inversion Hall; subst. simpl in H1.
+    destruct (rstep_gen rcv s e0) as [s' [st|]] eqn:E.
+    + rewrite (rrun_done _ s' (rstep_some_done _ _ _ _ E)). exists t0, st. auto.
+    + apply IH; [eapply rstep_none_notdone; eassumption | assumption].
 Qed.
 
 Definition reqs_of (l : list (N * rin)) : list status :=
@@ -388,78 +405,100 @@ Definition reqs_of (l : list (N * rin)) : list status :=
 Definition closed_in (l : list (N * rin)) : bool :=
   existsb (fun x => match snd x with RClosed => true | _ => false end) l.
 
+(* Shutdown.first is the head of everything requested so far *)
+Definition first_inv (s : rstate) : Prop := r_first s = hd_error (r_queue s).
+
 (* the returning poll reads the queue of everything requested before it *)
 Lemma rrun_result : forall evs s t st,
-  r_done s = false -> rrun s evs = [(t, st)] ->
+  r_done s = false -> first_inv s -> rrun_gen rcv s evs = [(t, st)] ->
   exists pre e post, evs = pre ++ (t, e) :: post /\ (e = RPoll \/ e = RDeadline) /\
-    (recv (r_queue s ++ reqs_of pre) (r_closed s || closed_in pre) = Some st \/
-     (e = RDeadline /\ recv (r_queue s ++ reqs_of pre) (r_closed s || closed_in pre) = None /\ st = TimedOut)).
+    let q := r_queue s ++ reqs_of pre in
+    let c := r_closed s || closed_in pre in
+    (rcv q c (hd_error q) = Some st \/ (e = RDeadline /\ rcv q c (hd_error q) = None /\ st = TimedOut)).
 Proof.
-  induction evs as [|[t0 e0] r IH]; intros s t st Hd H; simpl in H; [discriminate|].
-  destruct (rstep s e0) as [s' o] eqn:E. unfold rstep in E. rewrite Hd in E.
+  induction evs as [|[t0 e0] r IH]; intros s t st Hd Hf H; simpl in H; [discriminate|].
+  destruct (rstep_gen rcv s e0) as [s' o] eqn:E. unfold rstep_gen in E. rewrite Hd in E.
+  unfold first_inv in Hf.
   destruct e0.
   - (* RReq *)
     inversion E; subst; clear E.
-    match type of H with rrun ?s1 _ = _ => destruct (IH s1 _ _ eq_refl H) as [pre [e [post [-> [He Hr]]]]] end.
+    match type of H with rrun_gen _ ?s1 _ = _ =>
+      assert (Hf1 : first_inv s1)
+    end.
+    { unfold first_inv. simpl. rewrite Hf. destruct (r_queue s); reflexivity. }
+    match type of H with rrun_gen _ ?s1 _ = _ =>
+      destruct (IH s1 _ _ eq_refl Hf1 H) as [pre [e [post [-> [He Hr]]]]] end.
     exists ((t0, RReq st0) :: pre), e, post. split; [reflexivity|]. split; [assumption|].
     simpl in *. rewrite <- app_assoc in Hr. simpl in Hr. exact Hr.
   - (* RJoined *)
     inversion E; subst; clear E.
-    match type of H with rrun ?s1 _ = _ => destruct (IH s1 _ _ eq_refl H) as [pre [e [post [-> [He Hr]]]]] end.
+    match type of H with rrun_gen _ ?s1 _ = _ =>
+      destruct (IH s1 _ _ eq_refl Hf H) as [pre [e [post [-> [He Hr]]]]] end.
     exists ((t0, RJoined) :: pre), e, post. split; [reflexivity|]. split; [assumption|]. simpl in *. exact Hr.
   - (* RClosed *)
     inversion E; subst; clear E.
-    match type of H with rrun ?s1 _ = _ => destruct (IH s1 _ _ eq_refl H) as [pre [e [post [-> [He Hr]]]]] end.
+    match type of H with rrun_gen _ ?s1 _ = _ =>
+      destruct (IH s1 _ _ eq_refl Hf H) as [pre [e [post [-> [He Hr]]]]] end.
     exists ((t0, RClosed) :: pre), e, post. split; [reflexivity|]. split; [assumption|].
     simpl in *. rewrite orb_true_r. exact Hr.
   - (* RPoll *)
-    destruct (recv (r_queue s) (r_closed s)) as [st1|] eqn:Er; inversion E; subst; clear E.
+    destruct (rcv (r_queue s) (r_closed s) (r_first s)) as [st1|] eqn:Er; inversion E; subst; clear E.
     + rewrite rrun_done in H by reflexivity. inversion H; subst.
       exists [], RPoll, r. split; [reflexivity|]. split; [left; reflexivity|]. left. simpl.
-      rewrite app_nil_r, orb_false_r. assumption.
-    + destruct (IH _ _ _ Hd H) as [pre [e [post [-> [He Hr]]]]].
+      rewrite app_nil_r, orb_false_r, <- Hf. assumption.
+    + destruct (IH _ _ _ Hd Hf H) as [pre [e [post [-> [He Hr]]]]].
       exists ((t0, RPoll) :: pre), e, post. split; [reflexivity|]. split; [assumption|]. simpl. exact Hr.
   - (* RDeadline *)
-    destruct (recv (r_queue s) (r_closed s)) as [st1|] eqn:Er; inversion E; subst; clear E;
+    destruct (rcv (r_queue s) (r_closed s) (r_first s)) as [st1|] eqn:Er; inversion E; subst; clear E;
       rewrite rrun_done in H by reflexivity; inversion H; subst;
       exists [], RDeadline, r; (split; [reflexivity|]); (split; [right; reflexivity|]); simpl;
-      rewrite app_nil_r, orb_false_r.
+      rewrite app_nil_r, orb_false_r, <- Hf.
     + left. assumption.
     + right. auto.
 Qed.
 
-Lemma recv_first : forall st more c, length more < capacity -> recv (st :: more) c = Some st.
-Proof.
-  intros st more c H. unfold recv.
-  replace (length (st :: more) - capacity) with 0 by (simpl; unfold capacity in *; lia). reflexivity.
-Qed.
+End AnyRecv.
 
-Lemma recv_nil : forall c, recv [] c = if c then Some Exited else None.
+Theorem run_returns_at_most_once : forall evs s, length (rrun s evs) <= 1.
+Proof. exact (once_gen recv). Qed.
+
+(* the repaired get_status: the head of the queue, however many requests are queued *)
+Lemma recv_first : forall st more c, recv (st :: more) c (Some st) = Some st.
+Proof. intros st more c. unfold recv. destruct (Nat.leb (length (st :: more)) capacity); reflexivity. Qed.
+
+Lemma recv_nil : forall c f, recv [] c f = if c then Some Exited else None.
 Proof. reflexivity. Qed.
 
-(* result = the first status requested before the returning poll (at most 16 requests queued), Exited if
-   every sender was dropped, TimedOut only from the outer deadline *)
+(* result = the first status requested before the returning poll -- no bound on the number of queued
+   requests --, Exited if every sender was dropped, TimedOut only from the outer deadline *)
 Theorem run_status : forall evs t st,
   rrun rinit evs = [(t, st)] ->
   exists pre e post, evs = pre ++ (t, e) :: post /\ (e = RPoll \/ e = RDeadline) /\
-    (forall first more, reqs_of pre = first :: more -> length more < capacity -> st = first) /\
+    (forall first more, reqs_of pre = first :: more -> st = first) /\
     (reqs_of pre = [] -> (closed_in pre = true /\ st = Exited) \/ (e = RDeadline /\ st = TimedOut)).
 Proof.
-  intros evs t st H. destruct (rrun_result evs rinit t st eq_refl H) as [pre [e [post [E [He Hr]]]]].
-  exists pre, e, post. split; [assumption|]. split; [assumption|]. simpl in Hr. split.
-  - intros first more Hq Hlen. rewrite Hq in Hr. rewrite recv_first in Hr by assumption.
+  intros evs t st H.
+  destruct (rrun_result recv evs rinit t st eq_refl eq_refl H) as [pre [e [post [E [He Hr]]]]].
+  exists pre, e, post. split; [assumption|]. split; [assumption|].
+  cbv zeta in Hr. unfold rinit in Hr. cbn [r_queue r_closed app orb] in Hr. split.
+  - intros first more Hq. rewrite Hq in Hr. cbn [hd_error] in Hr. rewrite recv_first in Hr.
     destruct Hr as [Hr|[_ [Hr _]]]; congruence.
-  - intro Hq. rewrite Hq in Hr. rewrite recv_nil in Hr.
+  - intro Hq. rewrite Hq in Hr. cbn [hd_error] in Hr. rewrite recv_nil in Hr.
     destruct (closed_in pre); destruct Hr as [Hr|[He' [Hr Hs]]]; try discriminate.
     + left. split; [reflexivity | congruence].
     + right. auto.
 Qed.
 
-(* the 17th concurrent request pushes the first one out of the 16-slot channel *)
+(* 17 requests before the run task is polled *)
 Definition seventeen : list (N * rin) :=
   map (fun k => (0%N, RReq (Status (N.of_nat k)))) (seq 1 17) ++ [(0%N, RPoll)].
 
-Lemma lagged_first_status_lost : rrun rinit seventeen = [(0%N, Status 2)].
+(* before commit 0cf74903 the first status was lost (oldest retained message = the second request) ... *)
+Lemma lagged_first_status_lost_orig : rrun_orig rinit seventeen = [(0%N, Status 2)].
+Proof. vm_compute. reflexivity. Qed.
+
+(* ... the repaired code returns it *)
+Lemma lagged_first_status_kept : rrun rinit seventeen = [(0%N, Status 1)].
 Proof. vm_compute. reflexivity. Qed.
 
 Lemma insert_timeout_head : forall d reqs,
@@ -483,7 +522,7 @@ Theorem run_with_timeout_closed_form : forall d reqs,
 Proof.
   intros d reqs. unfold run_with_timeout. destruct (insert_timeout_head d reqs) as [rest ->].
   set (x := match reqs with (t, s) :: _ => if N.ltb t d then (t, s) else (d, TimedOut) | [] => (d, TimedOut) end).
-  destruct x as [t s]. simpl. rewrite rrun_done by reflexivity. reflexivity.
+  destruct x as [t s]. unfold rrun. simpl. rewrite rrun_done by reflexivity. reflexivity.
 Qed.
 
 Lemma predict_is_closed_form : forall d reqs,
@@ -494,23 +533,10 @@ Proof.
   destruct (N.ltb t d); reflexivity.
 Qed.
 
-(* whatever happens before it, the outer deadline makes the run return, no later than d + 1 s *)
-Lemma deadline_from : forall D evs s,
-  r_done s = false -> Forall (fun x => (fst x <= D)%N) evs ->
-  exists t st, rrun s (evs ++ [(D, RDeadline)]) = [(t, st)] /\ (t <= D)%N.
-Proof.
-  induction evs as [|[t0 e0] r IH]; intros s Hd Hall; simpl.
-  - unfold rstep. rewrite Hd. destruct (recv (r_queue s) (r_closed s)); eexists; eexists; (split; [reflexivity | lia]).
-  - inversion Hall; subst. simpl in H1.
-    destruct (rstep s e0) as [s' [st|]] eqn:E.
-    + rewrite (rrun_done _ s' (rstep_some_done _ _ _ _ E)). exists t0, st. auto.
-    + apply IH; [eapply rstep_none_notdone; eassumption | assumption].
-Qed.
-
 Theorem run_deadline : forall d evs,
   Forall (fun x => (fst x <= d + second_ns)%N) evs ->
   exists t st, rrun rinit (evs ++ [((d + second_ns)%N, RDeadline)]) = [(t, st)] /\ (t <= d + second_ns)%N.
-Proof. intros. apply deadline_from; [reflexivity | assumption]. Qed.
+Proof. intros. apply (deadline_from recv); [reflexivity | assumption]. Qed.
 
 (* ================================================================== 4. the validator *)
 
@@ -597,13 +623,13 @@ Theorem validate_sound : forall c tr st t,
    forall pre o post, tr = pre ++ o :: post -> obs_net o = true ->
    forall i, i < v_napps c -> In (OArrive i) pre) /\
   (forall d, v_timeout c = Some d ->
-     (t <= d + second_ns + (if v_paused c then 0 else 250000000))%N) /\
+     (t <= d + second_ns + v_slack c)%N) /\
   (v_paused c = true -> (v_napps c <> 0 \/ existsb (status_eqb st) (v_builtin_sts c) = false) ->
      check_paused (v_timeout c) tr st t = true).
 Proof.
   intros c tr st t H. unfold validate in H.
   destruct (check_barrier (v_napps c) (early_ok (v_machines c)) [] false tr) eqn:Hb; simpl in H; [|discriminate].
-  destruct (deadline_ok (v_timeout c) (if v_paused c then 0%N else 250000000%N) t) eqn:Hd; simpl in H; [|discriminate].
+  destruct (deadline_ok (v_timeout c) (v_slack c) t) eqn:Hd; simpl in H; [|discriminate].
   split; [|split].
   - intros Hdis pre o post E Hnet i Hi.
     rewrite (check_barrier_ext _ _ _ _ _ (early_ok_disciplined _ Hdis)) in Hb.
@@ -624,16 +650,16 @@ Proof.
   apply N.eqb_eq in H. subst. reflexivity.
 Qed.
 
-(* an accepted exact run with no lag and no tie is the closed form of the run model *)
+(* an accepted exact run without a tie is the closed form of the run model *)
 Theorem check_paused_predict : forall d tr st t,
-  check_paused (Some d) tr st t = true -> lag_pick tr = None ->
+  check_paused (Some d) tr st t = true ->
   (forall s, first_req tr <> Some (s, d)) ->
   (st, t) = predict (Some d) (first_req tr).
 Proof.
-  intros d tr st t H Hlag Htie. unfold check_paused in H. rewrite Hlag in H. simpl in H.
+  intros d tr st t H Htie. unfold check_paused in H.
   destruct (first_req tr) as [[s t0]|] eqn:Ef; simpl.
   - destruct (N.ltb t0 d) eqn:Hlt.
-    + rewrite orb_false_r in H. apply andb_true_iff in H. destruct H as [H1 H2].
+    + apply andb_true_iff in H. destruct H as [H1 H2].
       apply status_eqb_eq in H1. apply N.eqb_eq in H2. subst. reflexivity.
     + destruct (N.eqb t0 d) eqn:Heq.
       * apply N.eqb_eq in Heq. subst. exfalso. apply (Htie s). reflexivity.
